@@ -2,7 +2,7 @@
 (* Evaluates the codec properties on raw input/output records logged from the real      *)
 (* Pack / Unpack functions (harness/codec).  The reference specifications Cemi, Knxnet, *)
 (* Addr, Dpt own the meaning; this module only dispatches on the record kind.           *)
-EXTENDS Knxnet, Addr, Json, IOUtils, TLC, FiniteSets, SequencesExt
+EXTENDS Knxnet, Addr, Group, Json, IOUtils, TLC, FiniteSets, SequencesExt
 
 Recs == ndJsonDeserialize(IOEnv.TRACE)
 
@@ -46,10 +46,65 @@ JAddr(r) ==
          IN IF r.v = want THEN {} ELSE {"C18.Constructors"}
     [] OTHER -> {}
 
+\* ---- C02 / C15: KNXnet/IP services ------------------------------------------------------
+\* canonical decode of Enc(v): the documented wire effects on the cEMI part
+CanonCemi(c) ==
+  IF c.ck = "ldata"
+  THEN LET k == Canon(c) IN [c EXCEPT !.info = k.info, !.seqn = k.seqn, !.cmd = k.cmd, !.data = k.data]
+  ELSE c
+CanonV(v) == [v EXCEPT !.cemi = CanonCemi(v.cemi)]
+
+JSvc(r) ==
+  LET ref == Enc(r.v)
+      packed == r.panic = 0 /\ Len(r.gb) > 0
+      \* C02: same service type, same message code, equal fields; the decoder accepts the encoding
+      rt == packed /\ r.gok = 1 /\ r.gd = CanonV(r.v)
+      stable == ~(packed /\ r.gok = 1) \/ (r.g2ok = 1 /\ r.gd2 = r.gd)
+      \* C15
+      total == IF Len(r.gb) >= 6 THEN r.gb[5] * 256 + r.gb[6] ELSE -1
+  IN (IF rt THEN {} ELSE {"C02.RoundTrip"})
+     \cup (IF stable THEN {} ELSE {"C02.Stable"})
+     \cup (IF r.panic = 0 THEN {} ELSE {"C15.NoPanic"})
+     \cup (IF r.panic = 1 \/ r.guard = 1 THEN {} ELSE {"C15.GuardIntact"})
+     \cup (IF r.panic = 1 \/ (r.ff = r.gb /\ r.rnd = r.gb) THEN {} ELSE {"C15.Deterministic"})
+     \cup (IF r.panic = 1 \/ r.size = Len(ref) THEN {} ELSE {"C15.SizeExact"})
+     \cup (IF r.panic = 1 \/ total = Len(r.gb) THEN {} ELSE {"C15.HeaderLen"})
+     \* (a device name that is not representable in ISO 8859-1 has no prescribed encoding: the
+     \*  field may be left empty, neighbours intact)
+     \cup (IF r.panic = 1 \/ r.gb = ref
+              \/ ((\E i \in 1..Len(r.v.dev.name) : r.v.dev.name[i] > 255) /\ r.gb = Enc([r.v EXCEPT !.dev.name = << >>]))
+           THEN {} ELSE {"C15.Truncation"})
+
+\* ---- C01: decoding untrusted bytes ----------------------------------------------------------
+JDecOne(d, len) ==
+  (IF d.panic = 0 THEN {} ELSE {"C01.NoPanic"})
+  \cup (IF d.hang = 0 THEN {} ELSE {"C01.Terminates"})
+  \cup (IF d.ok = 0 \/ d.n <= len THEN {} ELSE {"C01.ConsumedWithin"})
+JDec(r) ==
+  JDecOne(r.exact, r.len) \cup JDecOne(r.exta, r.len) \cup JDecOne(r.extv, r.len)
+  \* the outcome is a function of the input bytes alone
+  \cup (IF r.exact = r.exta /\ r.exact = r.extv THEN {} ELSE {"C01.InputOnly"})
+
+\* ---- C12: group events <-> L_Data frames --------------------------------------------------------
+JGroup(r) ==
+  CASE r.op = "out" ->
+         LET want == IF r.via = "router" THEN LDataInd ELSE LDataReq
+             wsvc == IF r.via = "router" THEN RoutingInd ELSE TunnelReq
+         IN IF r.err = 0 /\ r.frames = 1 /\ r.svc = wsvc /\ r.f.ck = "ldata" /\ OutboundOK(r.ev, r.f, want) THEN {} ELSE {"C12.Outbound"}
+    [] r.op = "in" ->
+         IF IsEvent(r.msg) THEN (IF r.got = 1 /\ r.gev = EventOf(r.msg) THEN {} ELSE {"C12.InboundIff"})
+         ELSE (IF r.got = 0 THEN {} ELSE {"C12.InboundIff"})
+    [] r.op = "e2e" -> IF r.got = 1 /\ r.gev = Normalise(r.ev) THEN {} ELSE {"C12.EndToEnd"}
+    [] r.op = "close" -> IF r.got = 1 THEN {} ELSE {"C12.CloseFollows"}
+    [] OTHER -> {}
+
 Judge(r) ==
   CASE r.k = "ldata" -> JLData(r)
     [] r.k = "helper" -> JHelper(r)
     [] r.k = "addr" -> JAddr(r)
+    [] r.k = "svc" -> JSvc(r)
+    [] r.k = "dec" -> JDec(r)
+    [] r.k = "group" -> JGroup(r)
     [] OTHER -> {}
 
 VARIABLE l
